@@ -66,17 +66,31 @@ class Ctx:
     def mc(self, module, cfg, workers=16, timeout=3000, args=(), heap="8g", expect_ok=True,
            coverage=False, env=None, label=None):
         a = list(args)
+        dot = None
         if coverage:
-            a += ["-coverage", "1"]
+            # per-action transition counts from the labelled state graph.  (TLC's own -coverage
+            # is 50-100x slower on operator-heavy models and is not used.)
+            dot = os.path.join(tlc.scratch_dir("dot"), "g.dot")
+            a += ["-dump", "dot,actionlabels", dot]
         r = tlc.run_tlc(module, cfg, workers=workers, timeout=timeout, args=a, heap=heap, env=env)
         self.states += r.distinct
         self.transitions += r.generated
         self.mc_runs.append({"module": module, "label": label or module, "distinct": r.distinct,
                              "generated": r.generated, "depth": r.depth, "wall_s": round(r.wall, 1)})
         if coverage:
-            cov = r.coverage()
-            for k, v in cov.items():
-                self.actions_covered[module + "." + k] = v[1]
+            import collections
+            import re
+            cnt = collections.Counter()
+            if os.path.exists(dot):
+                with open(dot) as f:
+                    for line in f:
+                        if "->" in line:
+                            m = re.search(r'label="(\w+)"', line)
+                            if m:
+                                cnt[m.group(1)] += 1
+                os.remove(dot)
+            for k, v in cnt.items():
+                self.actions_covered[module + "." + k] = self.actions_covered.get(module + "." + k, 0) + v
         if expect_ok and not r.ok:
             tail = "\n".join(r.out.splitlines()[-60:])
             raise MachineryError("bounded model %s did not pass TLC:\n%s" % (module, tail))
